@@ -1,11 +1,10 @@
 CONSTANTS
-  Kind <- V1V1
-  Scripted <- NoneScripted
+  Confs <- ConfsV1V1
   GarbLens = {0}
   PreDecoys = {0}
   VersionLens = {0}
   DecoyLens = {0}
-  Types = {"ping", "verack"}
+  Types = {"ping"}
   Payloads = {"0", "1a"}
   PLenOf <- MCPLenOf
   Frags = {1, 20}
@@ -14,6 +13,7 @@ CONSTANTS
   MaxMsgs = 2
   MaxDecoys = 0
   TamperAfter = {0}
+  TamperKinds = {"key", "garb", "term", "pkt", "v1hdr", "v1pay"}
   AllowBurst = FALSE
 INIT Init
 NEXT Next
